@@ -27,8 +27,8 @@ import (
 // C19: shipped transports carry every envelope unchanged and reject what is not one.
 
 type c19Case struct {
-	Family string `json:"family"` // ws-roundtrip | ws-raw | chan | http-shapes | http-roundtrip | http-ctx | http-cleaner
-	N      int    `json:"n,omitempty"`
+	Family  string `json:"family"` // ws-roundtrip | ws-raw | chan | http-shapes | http-roundtrip | http-ctx | http-cleaner
+	N       int    `json:"n,omitempty"`
 	Variant string `json:"variant,omitempty"`
 }
 
@@ -48,7 +48,7 @@ func c19List(tier string) []c19Case {
 		for _, v := range []string{"read", "write"} {
 			out = append(out, c19Case{Family: "http-ctx", Variant: v})
 		}
-		for _, v := range []string{"tick-before-delivery", "tick-during-blocked-send", "tick-during-parked-delivery", "tick-after-delivery", "tick-idle-connection-reader"} {
+		for _, v := range []string{"tick-before-delivery", "tick-during-blocked-send", "tick-during-parked-delivery", "tick-after-delivery", "tick-idle-connection-reader", "tick-with-undelivered-envelopes"} {
 			out = append(out, c19Case{Family: "http-cleaner", Variant: v})
 		}
 	}
@@ -182,6 +182,13 @@ func c19WSRound(tier string, c c19Case, r *rand.Rand, res *core.Result) {
 			sent[i] = c19Envelope(r, i+dir, 1<<20)
 			if i%40 != 0 && sent[i].Body != nil && len(sent[i].Body.Data) > 40000 {
 				sent[i].Body.Data = sent[i].Body.Data[:33000] // keep most messages moderate
+			}
+			if i < 3 {
+				// the property's upper body size, and just below it (whatever else the envelope carries)
+				bb := make([]byte, (1<<20)-[]int{0, 1, 64}[i])
+				r.Read(bb)
+				sent[i].Body = &goatorepo.Body{Data: bb}
+				res.Stat("ws_bodies_of_1MiB", 1)
 			}
 		}
 		errc := make(chan error, 1)
@@ -442,10 +449,10 @@ func c19HTTPShapes(tier string, c c19Case, r *rand.Rand, res *core.Result) {
 	noHeader, _ := proto.Marshal(&wire.Rpc{Id: 6, Body: &goatorepo.Body{Data: []byte("x")}})
 	noSource, _ := proto.Marshal(&wire.Rpc{Id: 7, Header: &goatorepo.RequestHeader{Method: "/a/b"}})
 	type shape struct {
-		name string
-		body []byte
+		name    string
+		body    []byte
 		nilBody bool
-		want int
+		want    int
 	}
 	shapes := []shape{
 		{"nil-body", nil, true, 400}, {"empty-body", []byte{}, false, 400}, {"garbage", []byte{0xff, 0xff, 0xff, 0xff}, false, 400},
@@ -669,6 +676,56 @@ func c19HTTPCleaner(tier string, c c19Case, r *rand.Rand, res *core.Result, h *b
 		}
 	}
 	switch c.Variant {
+	case "tick-with-undelivered-envelopes":
+		// 8 sources post one envelope each while nobody reads their connections; then the idle
+		// timeout closes the connections; then the owners read until failure. An envelope that was
+		// acknowledged with 200 must have been read.
+		type post struct {
+			done chan any
+			w    *httptest.ResponseRecorder
+		}
+		posts := map[string]post{}
+		for k := 0; k < 8; k++ {
+			src := fmt.Sprintf("u%d", k)
+			bd, _ := proto.Marshal(&wire.Rpc{Id: uint64(100 + k), Header: &goatorepo.RequestHeader{Method: "/a/b", Source: src}, Body: &goatorepo.Body{Data: []byte("x")}})
+			w := httptest.NewRecorder()
+			done := make(chan any, 1)
+			go func() {
+				defer func() { done <- recover() }()
+				g.ServeHTTP(w, httptest.NewRequest("POST", "/", bytes.NewReader(bd)))
+			}()
+			posts[src] = post{done, w}
+		}
+		quiet(tier)
+		tick()
+		for src, p := range posts {
+			if !checkPanic(p.done, "with an undelivered envelope when the idle cleaner ran") {
+				return
+			}
+			rec.mu.Lock()
+			rw := rec.conns["addr-of-"+src]
+			rec.mu.Unlock()
+			read := 0
+			if rw != nil {
+				rctx, rcancel := context.WithTimeout(context.Background(), 5*time.Second)
+				for {
+					if _, err := rw.Read(rctx); err != nil {
+						break
+					}
+					read++
+				}
+				rcancel()
+			}
+			if p.w.Code == 200 && read == 0 {
+				res.Violate("http-envelope-acknowledged-but-never-delivered", "source %s: the POST was answered 200 but its envelope was never read (the connection timed out with the envelope undelivered)", src)
+				return
+			}
+			if p.w.Code != 200 && read > 0 {
+				res.Violate("http-envelope-refused-but-delivered", "source %s: the POST was answered %d but its envelope was read", src, p.w.Code)
+				return
+			}
+		}
+		res.Stat("cleaner_with_undelivered_envelopes_checked", 1)
 	case "tick-before-delivery":
 		tick()
 		done, _ := serve()
@@ -741,14 +798,14 @@ func c19HTTPCleaner(tier string, c c19Case, r *rand.Rand, res *core.Result, h *b
 
 func init() {
 	core.Register(&core.Prop{
-		ID:    "C19",
-		Level: "exploration",
-		Rule:  "(ws-roundtrip) envelopes cycling all 32 presence combinations of the five sub-messages x ids {0,1,2^31,2^63,2^64-1,random} x bodies {0,1,32Ki-1,32Ki,32Ki+1,1Mi} x non-ASCII strings x repeated fields over a real loopback WebSocket, both directions, proto.Equal and order; (ws-raw) text frames, truncated / bit-flipped / random / empty byte strings: Read fails iff a reference proto.Unmarshal fails and never decodes differently; (chan) pointer identity, order, context on a blocked Read and Write judged at final states; (http-shapes) ServeHTTP with nil / empty / garbage / truncated / header-less / source-less / unmappable / random bodies => 400 and never delivered, valid => delivered once; (http-roundtrip) Write over a loopback HTTP server into another instance; (http-ctx) blocked Read / Write after cancel; (http-cleaner) fake-clock idle tick before, during (blocked send, and parked just before the send by a hook) and after a delivery with ServeHTTP under recover, and a blocked reader of a connection that times out. Distinct = case descriptors. (ws-abandoned-write) a 200 KB Write whose context is cancelled while its frame is half-way onto the (stalling) loopback socket must return; three further Writes must return, and every envelope whose Write returned nil is read on the other end in write order; a Write that never returns is a violation when every goroutine is blocked and no byte is in flight between the two sockets (both ends are in the process), otherwise the 45 s bound is inconclusive.",
-		Plan:  func(tier string, seed int64) int { return len(c19List(tier)) },
-		Run:   c19Run,
+		ID:      "C19",
+		Level:   "exploration",
+		Rule:    "(ws-roundtrip) envelopes cycling all 32 presence combinations of the five sub-messages x ids {0,1,2^31,2^63,2^64-1,random} x bodies {0,1,32Ki-1,32Ki,32Ki+1,1Mi} x non-ASCII strings x repeated fields over a real loopback WebSocket, both directions, proto.Equal and order; (ws-raw) text frames, truncated / bit-flipped / random / empty byte strings: Read fails iff a reference proto.Unmarshal fails and never decodes differently; (chan) pointer identity, order, context on a blocked Read and Write judged at final states; (http-shapes) ServeHTTP with nil / empty / garbage / truncated / header-less / source-less / unmappable / random bodies => 400 and never delivered, valid => delivered once; (http-roundtrip) Write over a loopback HTTP server into another instance; (http-ctx) blocked Read / Write after cancel; (http-cleaner) fake-clock idle tick before, during (blocked send, and parked just before the send by a hook) and after a delivery with ServeHTTP under recover, and a blocked reader of a connection that times out. Distinct = case descriptors. (ws-abandoned-write) a 200 KB Write whose context is cancelled while its frame is half-way onto the (stalling) loopback socket must return; three further Writes must return, and every envelope whose Write returned nil is read on the other end in write order; a Write that never returns is a violation when every goroutine is blocked and no byte is in flight between the two sockets (both ends are in the process), otherwise the 45 s bound is inconclusive.",
+		Plan:    func(tier string, seed int64) int { return len(c19List(tier)) },
+		Run:     c19Run,
 		Workers: 8,
 		RequiredStats: func(string) []string {
-			return []string{"ws_envelopes_roundtripped", "ws_raw_inputs_text-frame", "ws_raw_inputs_bit-flipped", "chan_ctx_ops_checked", "http_request_shapes", "http_envelopes_roundtripped", "cleaner_scenarios", "http_ctx_reads_checked", "ws_abandoned_write_cases"}
+			return []string{"ws_envelopes_roundtripped", "ws_raw_inputs_text-frame", "ws_raw_inputs_bit-flipped", "chan_ctx_ops_checked", "http_request_shapes", "http_envelopes_roundtripped", "cleaner_scenarios", "http_ctx_reads_checked", "ws_abandoned_write_cases", "ws_bodies_of_1MiB", "cleaner_with_undelivered_envelopes_checked"}
 		},
 		Assumptions: []string{"WebSocket and HTTP involve kernel I/O: 'returns after cancel' is judged with generous wall-clock watchdogs there (expiry = inconclusive for WebSocket; the HTTP Read path has no I/O and the HTTP Write bound is 10 s)", "the WebSocket read limit is configured by the harness on the connections it supplies"},
 	})
